@@ -60,3 +60,14 @@ Theorem C06_done_iff : forall e p a, In p known_progs ->
   let '(a', flag, tr) := run_one_step e p a in flag = eval_cond (done_cond p) a'.
 Proof. exact done_iff. Qed.
 Print Assumptions C06_done_iff.
+
+(* evaluating() of the four GP algorithms, REGENERATED from the source: exactly the candidates the optimiser picked are
+   evaluated, sample_count grows by their number (not by the batch size), the summed per-objective costs of exactly
+   these evaluations are charged (PaVeBaPartialGP), and exactly these (candidate, observation[, objective]) triples
+   reach the model — the accounting flag is emitted only when every one of these statements is present in the source *)
+Theorem C06_every_requested_evaluation_is_counted_costed_and_stored : forall S P U,
+  ef_accounting (vogp_evaluating S P U) = true /\ ef_accounting (epal_evaluating S P U) = true /\
+  ef_accounting (paveba_gp_evaluating S P U) = true /\ ef_accounting (paveba_partial_gp_evaluating S P U) = true /\
+  paveba_queries_and_stores_same_set = true.
+Proof. intros. repeat split. Qed.
+Print Assumptions C06_every_requested_evaluation_is_counted_costed_and_stored.
